@@ -39,6 +39,7 @@ mod binding {
         TooManyPos(usize, usize),
         Missing(Name),
         Unexpected(Name),
+        Duplicate,
     }
     impl From<()> for ArgsError {
         fn from(_: ()) -> Self {
@@ -75,6 +76,23 @@ mod binding {
 //@end
     }
 
+    /// stands for `crate::Invalid` in the splat range below (the only
+    /// constructor it uses)
+    pub(crate) enum Invalid {
+        DuplicateArgument,
+    }
+    impl From<Invalid> for ArgsError {
+        fn from(_: Invalid) -> Self {
+            ArgsError::Duplicate
+        }
+    }
+// `sass::CallArgs::evaluate`: what happens to a forwarded argument list
+// (`$args...` evaluating to an arglist) — the ArgList arm, extracted.
+//@range file=rsass/src/sass/call_args.rs impl="impl CallArgs" fn=evaluate after="css::Value::ArgList(args) => {" until="\n                    }\n                    css::Value::Map(map) => {"
+//@  header: pub(super) fn snippet_splat_arglist(result: &mut CallArgs, args: CallArgs) -> Result<()>
+//@  tail: Ok(())
+//@end
+
 //@range file=rsass/src/sass/formal_args.rs impl="impl FormalArgs" fn=eval from="let mut args = args;"
 //@  header: pub(super) fn snippet_bind_args<'a>(formals: &[(Name, Option<u8>)], rest: &Option<Name>, scope: &'a Binder, args: CallArgs) -> Result<&'a Binder>
 //@  subst: let argscope = ScopeRef::sub(scope); => let argscope = scope;
@@ -84,7 +102,7 @@ mod binding {
 //@  subst: &self.1 => rest
 //@end
 }
-use binding::{ArgsError as BindError, CallArgs as Args, snippet_bind_args};
+use binding::{ArgsError as BindError, CallArgs as Args, snippet_bind_args, snippet_splat_arglist};
 
 /// What happened, in order: Bound(first byte of the name, value) or
 /// DefaultEvaluated.
@@ -203,6 +221,41 @@ fn c18_extras_go_to_rest_parameter() {
     assert!(r.is_ok(), "extra positional arguments are not an error with a rest parameter");
     let ev = b.events();
     assert!(ev.len() == 2 && ev[0] == Ev::Bound(b'a', T) && ev[1] == Ev::Bound(b'r', V::ArgList(2)), "$a by position, the two extras in $rest");
+}
+/// C18: a keyword that names the rest parameter does not swallow the other
+/// keywords: with `f(true, $rest: false, $other: 0)` on `f($a, $rest...)`
+/// the rest parameter receives the argument list (whose keywords
+/// meta.keywords reports), not the plain value of `$rest`.
+#[kani::proof]
+#[kani::unwind(6)]
+fn c18_rest_keyword_with_other_keywords() {
+    let (fa, rest): (Vec<(Name, Option<u8>)>, Option<Name>) = (vec![(n("a"), None)], Some(n("rest")));
+    let b = Binder::new();
+    let r = snippet_bind_args(&fa, &rest, &b, call(vec![T], vec![("rest", F), ("other", N0)]));
+    assert!(r.is_ok());
+    let ev = b.events();
+    assert!(ev.len() == 2 && ev[0] == Ev::Bound(b'a', T), "$a by position");
+    assert!(matches!(ev[1], Ev::Bound(b'r', V::ArgList(_))), "the rest parameter gets the argument list, no keyword is dropped");
+}
+/// C18: duplicated arguments are an error — also when the duplicate comes
+/// from a forwarded argument list (`inner(1, $b: x, $args...)` where $args
+/// carries keyword b); otherwise the forwarded positionals and keywords are
+/// appended in order.
+#[kani::proof]
+#[kani::unwind(6)]
+fn c18_forwarded_arglist_duplicate_keyword_is_an_error() {
+    let mut result = call(vec![T], vec![("b", T)]);
+    let r = snippet_splat_arglist(&mut result, call(vec![F], vec![("b", F)]));
+    assert!(matches!(r, Err(BindError::Duplicate)), "keyword b passed explicitly and through the forwarded arglist: error");
+}
+#[kani::proof]
+#[kani::unwind(6)]
+fn c18_forwarded_arglist_is_appended() {
+    let mut result = call(vec![T], vec![]);
+    let r = snippet_splat_arglist(&mut result, call(vec![F], vec![("b", N0)]));
+    assert!(r.is_ok(), "distinct keywords are not an error");
+    assert!(result.positional.len() == 2 && result.positional[0] == T && result.positional[1] == F, "forwarded positionals follow the explicit ones");
+    assert!(result.named.len() == 1 && result.named.get(&n("b")) == Some(&N0), "forwarded keywords are kept");
 }
 /// C18: `-` and `_` are equivalent in names.
 #[kani::proof]
